@@ -60,6 +60,7 @@ pub const HOSTILE: &[&str] = &[
     "tx-no-outputs",
     "typed-tx-odd-shape",
     "typed-tx-odd-shape",
+    "unparsable-signature",
     "gt-tx-bad-payload",
     "reconnect-storm",
     "ping",
@@ -276,6 +277,42 @@ impl Scenario for C11 {
                         k[5] = i as u8;
                         sim.ext_send(aconn, Message::KeyListUpdate(vec![k]).serialize());
                     }
+                }
+                "unparsable-signature" => {
+                    // 64 bytes that are not an ECDSA signature at all (r, s above the group order), next to a
+                    // well-formed public key: in a handshake answer to a fresh challenge, and on a transaction
+                    let bad_sig = if mv.a % 2 == 0 { [0xFFu8; 64] } else { { let mut x = [0xFFu8; 64]; x[63] = mv.a as u8; x } };
+                    send(&mut sim, Message::HandshakeChallenge(HandshakeChallenge { challenge: [0x31; 32] }));
+                    sim.settle_without_fetches(3000);
+                    for (cc, m) in sim.take_ext_inbox(0) {
+                        if cc != aconn {
+                            continue;
+                        }
+                        if let Ok(Message::HandshakeResponse(_)) = Message::deserialize(m) {
+                            let resp2 = HandshakeResponse {
+                                public_key: ak2.pk,
+                                signature: bad_sig,
+                                is_lite: false,
+                                block_fetch_url: "http://attacker3".into(),
+                                challenge: [0; 32],
+                                services: vec![],
+                                wallet_version: version,
+                                core_version: version,
+                            };
+                            sim.ext_send(aconn, Message::HandshakeResponse(resp2).serialize());
+                        }
+                    }
+                    let mut t = Transaction::default();
+                    t.timestamp = sim.now();
+                    let mut i = Slip::default();
+                    i.public_key = ak.pk;
+                    t.add_from_slip(i);
+                    let mut o = Slip::default();
+                    o.public_key = ak.pk;
+                    t.add_to_slip(o);
+                    t.sign(&ak.sk);
+                    t.signature = bad_sig;
+                    send(&mut sim, Message::Transaction(t));
                 }
                 "second-handshake-other-key" => {
                     send(&mut sim, Message::HandshakeChallenge(HandshakeChallenge { challenge: [0x21; 32] }));
